@@ -149,7 +149,11 @@ class _LsmlWorld(World):
     if isinstance(op, (ast.Add, ast.Sub)) and la is not None and \
             lb is not None and (isinstance(a, Lin) or isinstance(b, Lin) or
                                 not (_num(a) and _num(b))):
-      return la.add(lb, 1 if isinstance(op, ast.Add) else -1)
+      r = la.add(lb, 1 if isinstance(op, ast.Add) else -1)
+      if isinstance(node, ast.AugAssign) and isinstance(a, Lin):
+        a.t = r.t            # ndarray `+=` is in place: aliases see it
+        return a
+      return r
     if isinstance(op, ast.Mult):
       for x, y in ((a, b), (b, a)):
         lx = self._as_lin(x)
